@@ -31,8 +31,14 @@ func (r *reader) Read(p []byte) (int, error) {
 	k := r.calls
 	r.calls++
 	c := byte('P')
-	if k < len(r.script) {
-		c = r.script[k]
+	sc := r.script
+	if strings.HasSuffix(sc, "*") && len(sc) >= 2 { // "...X*": X repeats forever
+		rep := sc[len(sc)-2]
+		sc = sc[:len(sc)-2]
+		c = rep
+	}
+	if k < len(sc) {
+		c = sc[k]
 	}
 	switch c {
 	case 'E':
@@ -100,7 +106,7 @@ func explore(sc scenario, bound, maxExec int) result {
 		readerErr bool
 	}
 	var cur *ret
-	ex := &vsched.Explorer{Bound: bound, MaxSteps: 4000, MaxExec: maxExec}
+	ex := &vsched.Explorer{Bound: bound, MaxSteps: 1200, MaxExec: maxExec}
 	ex.Body = func() {
 		cur = &ret{}
 		my := cur
@@ -135,6 +141,10 @@ func explore(sc scenario, bound, maxExec int) result {
 			}
 			seen[key] = true
 			res.Violations = append(res.Violations, violation{key, what, x.Choices, s.Trace})
+		}
+		if s.Aborted == "horizon exceeded" {
+			add("livelock/does-not-stop", "the call (or one of its goroutines) keeps running without end: "+fmt.Sprint(s.Trace[len(s.Trace)-6:]))
+			return
 		}
 		if s.Aborted != "" {
 			add("infrastructure/"+s.Aborted, s.Aborted)
@@ -206,6 +216,10 @@ func scenarios() []scenario {
 		scenario{"conc=2,primes=2,reader=PE,then P*", 2, 2, "PE", false},
 		scenario{"conc=2,primes=1,reader=NNP*,cancel", 2, 1, "NN", true},
 		scenario{"conc=3,primes=2,reader=NEP*", 3, 2, "NE", false},
+		// the reader never yields a prime: only the cancellation can end the call (producers must look at
+		// the context between draws; a spinning producer must not keep the call from returning)
+		scenario{"conc=1,primes=1,reader=N-forever,cancel", 1, 1, "N*", true},
+		scenario{"conc=2,primes=1,reader=N-forever,cancel", 2, 1, "N*", true},
 	)
 	return scs
 }
